@@ -1445,74 +1445,6 @@ def _bare_matchable(tree):
     return not (n is not None and n.kind == 'look' and n.dir == 'behind')
 
 
-def date_regex_layouts(idx, R, cls, ev):
-    """-> (declared order, [(branch label, active, [(display name, pattern)])]) or None when the class has no such list"""
-    init = cls.methods.get('__init__')
-    if init is None:
-        return None
-    lst = None
-    for n in ast.walk(init):
-        if isinstance(n, ast.Assign) and any(isinstance(t, ast.Attribute) and t.attr == '_date_regex_list' for t in n.targets) \
-                and isinstance(n.value, ast.List):
-            lst = n.value
-    if lst is None:
-        return None
-    elems = []
-    for e in lst.elts:
-        arg = e.args[0] if isinstance(e, ast.Call) and e.args else e
-        elems.append(arg)
-    local_names = {a.id for a in elems if isinstance(a, ast.Name)}
-    branches = [('', True, {})]
-    if local_names:
-        chooser = None
-        for st in init.body:
-            if isinstance(st, ast.If):
-                assigned = {t.id for n in ast.walk(st) if isinstance(n, ast.Assign) for t in n.targets if isinstance(t, ast.Name)}
-                if local_names <= assigned:
-                    chooser = st
-        if chooser is None:
-            raise AnalysisError('%s.__init__: the if/else that chooses the numeric date layouts was not found' % cls.name)
-        test = chooser.test
-        tv = ev(test)
-        if tv is NOVAL_ and isinstance(test, ast.Compare) and len(test.ops) == 1 and isinstance(test.ops[0], ast.Eq):
-            a, b = ev(test.left), ev(test.comparators[0])
-            if a is not NOVAL_ and b is not NOVAL_:
-                tv = a == b
-        if tv is NOVAL_ and isinstance(test, ast.Name):
-            params = init.args.args
-            defaults = init.args.defaults
-            for i, prm in enumerate(params):
-                if prm.arg == test.id:
-                    di = i - (len(params) - len(defaults))
-                    if di >= 0 and isinstance(defaults[di], ast.Constant):
-                        tv = bool(defaults[di].value)
-        if tv is NOVAL_:
-            raise AnalysisError('%s.__init__: cannot evaluate the layout-choosing condition `%s` under default configuration'
-                                % (cls.name, ast.unparse(test)))
-        branches = []
-        for label, body, active in (('if-branch', chooser.body, bool(tv)), ('else-branch', chooser.orelse, not tv)):
-            m = {}
-            for st in body:
-                if isinstance(st, ast.Assign) and len(st.targets) == 1 and isinstance(st.targets[0], ast.Name):
-                    m[st.targets[0].id] = st.value
-            branches.append((label, active, m))
-    out = []
-    declared = None
-    for label, active, m in branches:
-        pats = []
-        for a in elems:
-            src = m.get(a.id) if isinstance(a, ast.Name) else a
-            if not (isinstance(src, ast.Attribute) and isinstance(src.value, ast.Name)):
-                raise AnalysisError('%s.__init__: date_regex_list element %s is not <Resource>.<Name>' % (cls.name, ast.unparse(a)))
-            vals = R.by_name(cls.mod, src.value.id)
-            if vals is None or src.attr not in vals or not isinstance(vals[src.attr], str):
-                raise AnalysisError('%s.__init__: cannot evaluate %s' % (cls.name, ast.unparse(src)))
-            declared = vals.get('DefaultLanguageFallback', declared)
-            pats.append((src.attr, vals[src.attr]))
-        out.append((label, active, pats))
-    return declared, out
-
-
 NOVAL_ = None      # bound to c07.NOVAL on first use
 
 
@@ -1542,14 +1474,32 @@ def rule_numeric_order(chk, idx):
     rid = 'C09.numeric-order'
     chk.rule(rid, 'under the default configuration the first numeric layout of date_regex_list that can read a bare `a/b` has '
                   'the day/month order the culture declares (DefaultLanguageFallback)', floor=6)
+    from . import c06 as _c06
     R = Resources(idx)
+    W = _c06.Wiring(idx, R)
     base = idx.cls(PKG + '.base_date.DateExtractorConfiguration')
     n = 0
     for c in sorted(idx.subclasses(base), key=lambda k: k.qual):
-        res = date_regex_layouts(idx, R, c, make_evalc(idx, c.mod, c))
-        if res is None:
+        # the ordered list is obtained by interpreting the configuration's __init__ under its default arguments (the wiring
+        # evaluator of C06.order): if/else, conditional expression, tuple unpacking or a table all read alike
+        k_, init = idx.find_method(c, '__init__')
+        if init is None:
             continue
-        declared, branches = res
+        flag = False
+        for d_ in init.args.defaults:
+            if isinstance(d_, ast.Constant) and isinstance(d_.value, bool):
+                flag = d_.value
+        lst = _c06.ordered_date_regexes(idx, W, c, flag)       # AnalysisError when the list cannot be evaluated
+        pats = [(getattr(x, 'attr', '?'), str(x)) for x in lst]
+        declared = None
+        for x in lst:
+            rc = getattr(x, 'rcls', None)
+            if rc:
+                vals = R.by_name(c.mod, rc)
+                if vals and isinstance(vals.get('DefaultLanguageFallback'), str):
+                    declared = vals['DefaultLanguageFallback']
+                    break
+        branches = [('default configuration', True, pats)]
         if declared not in ('DMY', 'MDY'):
             chk.observe('%s: declared order %r - numeric day/month layouts not compared' % (c.name, declared))
             continue
